@@ -206,8 +206,10 @@ class Bases:
 
     def __init__(self, root):
         self.root = root
-        rec = synth.planted_record(step_s=3600, recessions=((1, 5), (0, 6), (2, 5)))
-        texts = synth.to_csv_texts(rec)
+        # three storms and recessions, a hole in the level record (two data intervals), and a
+        # final rise without rain up to the highest level of the record
+        rec = synth.planted_record(step_s=3600, recessions=((1, 5), (0, 6), (2, 5)), tail_dry=1, final_jump=7)
+        texts = synth.to_csv_texts(rec, drop_level_rows=(12, 13))
         rr = pipeline.RealRun(texts)
         err = rr.load()
         if err is not None:
@@ -353,7 +355,7 @@ class C20(Check):
             self.bounds = {'steps': list(STEPS), 'statements per step (every one is a fault point, plus commit)': dict(bases.count),
                            'fault kinds': ['raise sqlite3.OperationalError before the statement', 'kill the process (os._exit in a forked child) before the statement'],
                            'orders of independent steps': len(orders()), 'failed attempts in between': 'none (quick) / one at every position (thorough)',
-                           'dataset': 'planted record, 3 storms + 3 recessions (concrete)'}
+                           'dataset': 'planted record, 3 storms + 3 recessions, a hole in the level record (two data intervals), a final rainless jump to the record maximum (concrete)'}
             self.assumptions = ['durability below the SQLite API (torn pages, fsync) is SQLite\'s own guarantee', '`load` is outside ("after loading")',
                                 'data are concrete: the quantifier is over fault points, fault kinds, orders and failed attempts']
             self.stubs = ['sqlite3 inside spowtd.user_interface -> counting / fault-injecting proxy around the real sqlite3 on a real file']
